@@ -1,2 +1,458 @@
 import ZarrsModel.Model.FillMeta
-/- helper lemmas for C14/C13 -/
+/-
+Helper lemmas for C14/C13: exactness of `Fmt.round` on representable rationals, exact widening between
+IEEE formats, and the `narrow (widen b) = b` round trip on finite patterns.  Core Lean only.
+-/
+namespace Zarrs.Float
+
+theorem Fmt.bias_pos (f : Fmt) (he : 2 ≤ f.eb) : 1 ≤ f.bias := by
+  unfold Fmt.bias
+  have : 2 ^ 1 ≤ 2 ^ (f.eb - 1) := Nat.pow_le_pow_right (by decide) (by omega)
+  omega
+
+theorem Fmt.sigExp_eq (f : Fmt) (m : Nat) :
+    f.sigExp m = if m / 2 ^ f.mb = 0 then (m % 2 ^ f.mb, 1) else (2 ^ f.mb + m % 2 ^ f.mb, m / 2 ^ f.mb) := by
+  simp [Fmt.sigExp]
+
+/-- characterisation of `sigExp` -/
+theorem Fmt.sigExp_spec (f : Fmt) (m : Nat) :
+    1 ≤ (f.sigExp m).2 ∧ (f.sigExp m).1 < 2 ^ (f.mb + 1) ∧
+    m = ((f.sigExp m).2 - 1) * 2 ^ f.mb + (f.sigExp m).1 ∧
+    ((f.sigExp m).2 = 1 ∨ 2 ^ f.mb ≤ (f.sigExp m).1) := by
+  rw [Fmt.sigExp_eq]
+  have hp : 0 < 2 ^ f.mb := Nat.two_pow_pos _
+  have hlt : m % 2 ^ f.mb < 2 ^ f.mb := Nat.mod_lt _ hp
+  have hdm : 2 ^ f.mb * (m / 2 ^ f.mb) + m % 2 ^ f.mb = m := Nat.div_add_mod m _
+  have hs : 2 ^ (f.mb + 1) = 2 * 2 ^ f.mb := by rw [Nat.pow_succ, Nat.mul_comm]
+  split
+  · next h0 =>
+    rw [h0] at hdm
+    refine ⟨Nat.le_refl _, ?_, ?_, Or.inl rfl⟩
+    · show m % 2 ^ f.mb < _; omega
+    · show m = (1 - 1) * 2 ^ f.mb + m % 2 ^ f.mb; omega
+  · next h0 =>
+    refine ⟨Nat.pos_of_ne_zero h0, ?_, ?_, Or.inr (Nat.le_add_right _ _)⟩
+    · show 2 ^ f.mb + m % 2 ^ f.mb < _; omega
+    · show m = (m / 2 ^ f.mb - 1) * 2 ^ f.mb + (2 ^ f.mb + m % 2 ^ f.mb)
+      generalize m / 2 ^ f.mb = E at *
+      obtain ⟨E', rfl⟩ : ∃ E', E = E' + 1 := ⟨E - 1, by omega⟩
+      rw [Nat.add_sub_cancel]
+      rw [Nat.mul_add, Nat.mul_one] at hdm
+      rw [Nat.mul_comm E']
+      omega
+
+theorem Fmt.sigExp_mk (f : Fmt) (k q : Nat) (hq : q < 2 ^ (f.mb + 1)) (hk : k = 0 ∨ 2 ^ f.mb ≤ q) :
+    f.sigExp (k * 2 ^ f.mb + q) = (q, k + 1) := by
+  rw [Fmt.sigExp_eq]
+  have hp : 0 < 2 ^ f.mb := Nat.two_pow_pos _
+  have hs : 2 ^ (f.mb + 1) = 2 * 2 ^ f.mb := by rw [Nat.pow_succ, Nat.mul_comm]
+  by_cases hq' : q < 2 ^ f.mb
+  · have hk0 : k = 0 := by omega
+    subst hk0
+    rw [Nat.zero_mul, Nat.zero_add, Nat.div_eq_of_lt hq', Nat.mod_eq_of_lt hq']
+    simp
+  · obtain ⟨r, rfl⟩ : ∃ r, q = 2 ^ f.mb + r := ⟨q - 2 ^ f.mb, by omega⟩
+    have hr : r < 2 ^ f.mb := by omega
+    have e1 : k * 2 ^ f.mb + (2 ^ f.mb + r) = r + 2 ^ f.mb * (k + 1) := by
+      rw [Nat.mul_add, Nat.mul_one, Nat.mul_comm k]; omega
+    rw [e1, Nat.add_mul_div_left _ _ hp, Nat.add_mul_mod_self_left, Nat.div_eq_of_lt hr, Nat.mod_eq_of_lt hr]
+    simp
+
+theorem Fmt.value_eq (f : Fmt) (m : Nat) :
+    f.value m = if (f.sigExp m).2 ≥ f.bias + f.mb
+      then ((f.sigExp m).1 * 2 ^ ((f.sigExp m).2 - (f.bias + f.mb)), 1)
+      else ((f.sigExp m).1, 2 ^ (f.bias + f.mb - (f.sigExp m).2)) := by
+  unfold Fmt.value
+  rcases f.sigExp m with ⟨a, b⟩
+  rfl
+
+theorem Fmt.value_den_pos (f : Fmt) (m : Nat) : 0 < (f.value m).2 := by
+  rw [Fmt.value_eq]
+  split
+  · exact Nat.one_pos
+  · exact Nat.two_pow_pos _
+
+/-- normal form of the exact value: `value m = sig * 2^(e-1) / 2^(bias - 1 + mb)` -/
+theorem Fmt.value_spec (f : Fmt) (he : 2 ≤ f.eb) (m : Nat) :
+    (f.value m).1 * 2 ^ (f.bias - 1 + f.mb) =
+      (f.sigExp m).1 * 2 ^ ((f.sigExp m).2 - 1) * (f.value m).2 := by
+  have hb := f.bias_pos he
+  have he1 := (f.sigExp_spec m).1
+  rw [Fmt.value_eq]
+  generalize (f.sigExp m).1 = sig at *
+  generalize (f.sigExp m).2 = e at *
+  generalize f.bias = B at *
+  generalize f.mb = M at *
+  split
+  · next h =>
+    show sig * 2 ^ (e - (B + M)) * 2 ^ (B - 1 + M) = sig * 2 ^ (e - 1) * 1
+    rw [Nat.mul_one, Nat.mul_assoc, ← Nat.pow_add]
+    congr 2; omega
+  · next h =>
+    show sig * 2 ^ (B - 1 + M) = sig * 2 ^ (e - 1) * 2 ^ (B + M - e)
+    rw [Nat.mul_assoc, ← Nat.pow_add]
+    congr 2; omega
+
+theorem round_k (M q k : Nat) (hq0 : 0 < q) (hq : q < 2 ^ (M + 1)) (hk : k = 0 ∨ 2 ^ M ≤ q) :
+    (if q * 2 ^ k < 2 ^ (M + 1) then 0 else Nat.log2 (q * 2 ^ k) - M) = k := by
+  rcases hk with rfl | hk
+  · simp [hq]
+  · have hlo : 2 ^ (M + k) ≤ q * 2 ^ k := by
+      rw [Nat.pow_add]; exact Nat.mul_le_mul_right _ hk
+    have hhi : q * 2 ^ k < 2 ^ (M + k + 1) := by
+      rw [show M + k + 1 = M + 1 + k by omega, Nat.pow_add]
+      exact Nat.mul_lt_mul_of_pos_right hq (Nat.two_pow_pos _)
+    have hne : q * 2 ^ k ≠ 0 := Nat.ne_of_gt (Nat.mul_pos hq0 (Nat.two_pow_pos _))
+    have hlog : Nat.log2 (q * 2 ^ k) = M + k := (Nat.log2_eq_iff hne).2 ⟨hlo, hhi⟩
+    split
+    · next hlt =>
+      have : 2 ^ (M + k) < 2 ^ (M + 1) := Nat.lt_of_le_of_lt hlo hlt
+      have := (Nat.pow_lt_pow_iff_right (by decide : 1 < 2)).1 this
+      omega
+    · rw [hlog]; omega
+
+/-- (L2) rounding a rational that is exactly `q * 2^k` units of the smallest subnormal -/
+theorem Fmt.round_exact (f : Fmt) (num den q k : Nat) (hden : 0 < den) (hq0 : 0 < q)
+    (hq : q < 2 ^ (f.mb + 1)) (hk : k = 0 ∨ 2 ^ f.mb ≤ q)
+    (h : num * 2 ^ (f.bias - 1 + f.mb) = q * 2 ^ k * den) :
+    f.round num den = k * 2 ^ f.mb + q := by
+  have hnum : num ≠ 0 := by
+    rintro rfl
+    rw [Nat.zero_mul] at h
+    have := Nat.mul_pos (Nat.mul_pos hq0 (Nat.two_pow_pos k)) hden
+    omega
+  unfold Fmt.round
+  have hb : (num == 0) = false := by simp [hnum]
+  simp only [hb, Bool.false_eq_true, if_false]
+  rw [h, Nat.mul_div_cancel _ hden, round_k f.mb q k hq0 hq hk]
+  have hd : 0 < den * 2 ^ k := Nat.mul_pos hden (Nat.two_pow_pos _)
+  have e1 : q * 2 ^ k * den = q * (den * 2 ^ k) := by
+    rw [Nat.mul_assoc, Nat.mul_comm (2 ^ k)]
+  rw [e1, Nat.mul_div_cancel _ hd, Nat.mul_mod_left]
+  have : ¬ (2 * 0 > den * 2 ^ k) := by omega
+  have h2 : ¬ (2 * 0 = den * 2 ^ k) := by omega
+  simp [this, h2]
+
+theorem Fmt.round_zero (f : Fmt) (den : Nat) : f.round 0 den = 0 := by
+  simp [Fmt.round]
+
+/-- from `num/den = value m` to the scaled normal form -/
+theorem Fmt.scaled_of_eq (f : Fmt) (he : 2 ≤ f.eb) (m num den : Nat)
+    (heq : num * (f.value m).2 = (f.value m).1 * den) :
+    num * 2 ^ (f.bias - 1 + f.mb) = (f.sigExp m).1 * 2 ^ ((f.sigExp m).2 - 1) * den := by
+  have hv := f.value_spec he m
+  have hp := f.value_den_pos m
+  apply Nat.eq_of_mul_eq_mul_right hp
+  calc num * 2 ^ (f.bias - 1 + f.mb) * (f.value m).2
+      = num * (f.value m).2 * 2 ^ (f.bias - 1 + f.mb) := by ac_rfl
+    _ = (f.value m).1 * den * 2 ^ (f.bias - 1 + f.mb) := by rw [heq]
+    _ = (f.value m).1 * 2 ^ (f.bias - 1 + f.mb) * den := by ac_rfl
+    _ = (f.sigExp m).1 * 2 ^ ((f.sigExp m).2 - 1) * (f.value m).2 * den := by rw [hv]
+    _ = _ := by ac_rfl
+
+/-- generalisation: any rational equal to the exact value of `m` rounds to `m` -/
+theorem Fmt.round_of_eq (f : Fmt) (he : 2 ≤ f.eb) (m : Nat) (num den : Nat) (hden : 0 < den)
+    (heq : num * (f.value m).2 = (f.value m).1 * den) : f.round num den = m := by
+  have hs := f.scaled_of_eq he m num den heq
+  obtain ⟨h1, h2, h3, h4⟩ := f.sigExp_spec m
+  by_cases h0 : (f.sigExp m).1 = 0
+  · rw [h0, Nat.zero_mul, Nat.zero_mul] at hs
+    have hnum : num = 0 := by
+      rcases Nat.mul_eq_zero.1 hs with h | h
+      · exact h
+      · exact absurd h (Nat.ne_of_gt (Nat.two_pow_pos _))
+    have hp : 0 < 2 ^ f.mb := Nat.two_pow_pos _
+    have hm : m = 0 := by
+      rcases h4 with h | h
+      · rw [h, h0] at h3; simpa using h3
+      · omega
+    rw [hnum, hm, Fmt.round_zero]
+  · rw [f.round_exact num den _ _ hden (Nat.pos_of_ne_zero h0) h2 (by omega) hs]
+    exact h3.symm
+
+set_option linter.unusedVariables false in
+theorem Fmt.round_value (f : Fmt) (hm : 1 ≤ f.mb) (he : 2 ≤ f.eb) (m : Nat) (h : m < f.inf) :
+    f.round (f.value m).1 (f.value m).2 = m :=
+  f.round_of_eq he m _ _ (f.value_den_pos m) rfl
+
+/-- (L2') the exact value of `k * 2^mb + q` -/
+theorem Fmt.value_mk (f : Fmt) (he : 2 ≤ f.eb) (k q : Nat) (hq : q < 2 ^ (f.mb + 1))
+    (hk : k = 0 ∨ 2 ^ f.mb ≤ q) :
+    (f.value (k * 2 ^ f.mb + q)).1 * 2 ^ (f.bias - 1 + f.mb) =
+      q * 2 ^ k * (f.value (k * 2 ^ f.mb + q)).2 := by
+  have := f.value_spec he (k * 2 ^ f.mb + q)
+  rw [f.sigExp_mk k q hq hk] at this
+  exact this
+
+theorem cross_cancel (a b c d U S : Nat) (hS : 0 < S) (h1 : a * S = U * b) (h2 : c * S = U * d) :
+    a * d = c * b := by
+  apply Nat.eq_of_mul_eq_mul_right hS
+  calc a * d * S = a * S * d := by ac_rfl
+    _ = U * b * d := by rw [h1]
+    _ = U * d * b := by ac_rfl
+    _ = c * S * b := by rw [h2]
+    _ = c * b * S := by ac_rfl
+
+theorem rescale (x y S c sig K a k : Nat) (h : x * 2 ^ S = sig * 2 ^ K * y) (hk : K + c = k + a) :
+    x * 2 ^ (S + c) = sig * 2 ^ a * 2 ^ k * y := by
+  calc x * 2 ^ (S + c) = x * 2 ^ S * 2 ^ c := by rw [Nat.pow_add, Nat.mul_assoc]
+    _ = sig * 2 ^ K * y * 2 ^ c := by rw [h]
+    _ = sig * (2 ^ K * 2 ^ c) * y := by ac_rfl
+    _ = sig * (2 ^ a * 2 ^ k) * y := by rw [← Nat.pow_add, hk, Nat.add_comm k a, Nat.pow_add]
+    _ = _ := by ac_rfl
+
+theorem Fmt.inf_pos (f : Fmt) (he : 2 ≤ f.eb) : 0 < f.inf := by
+  unfold Fmt.inf Fmt.expMax
+  have : 2 ^ 2 ≤ 2 ^ f.eb := Nat.pow_le_pow_right (by decide) he
+  exact Nat.mul_pos (by omega) (Nat.two_pow_pos _)
+
+theorem Fmt.value_zero (f : Fmt) : (f.value 0).1 = 0 := by
+  have h : f.sigExp 0 = (0, 1) := by simp [Fmt.sigExp_eq]
+  rw [Fmt.value_eq, h]
+  split <;> simp
+
+/-- exact widening: a rational equal to a finite value of `f` rounds in the wider format `g` to a finite
+    magnitude with the same value -/
+theorem widen_exact (f g : Fmt) (hfe : 2 ≤ f.eb) (hge : 2 ≤ g.eb) (hmb : f.mb ≤ g.mb)
+    (hoff : f.bias + f.mb ≤ g.bias) (hrange : 2 ^ f.eb + g.bias ≤ 2 ^ g.eb + f.bias)
+    (m : Nat) (hm : m < f.inf) (num den : Nat) (hden : 0 < den)
+    (heq : num * (f.value m).2 = (f.value m).1 * den) :
+    g.round num den < g.inf ∧
+    (g.value (g.round num den)).1 * (f.value m).2 = (f.value m).1 * (g.value (g.round num den)).2 := by
+  have hs := f.scaled_of_eq hfe m num den heq
+  have hfv := f.value_spec hfe m
+  obtain ⟨h1, h2, h3, h4⟩ := f.sigExp_spec m
+  have hfb := f.bias_pos hfe
+  have hgb := g.bias_pos hge
+  generalize (f.sigExp m).1 = sig at *
+  generalize (f.sigExp m).2 = e at *
+  by_cases h0 : sig = 0
+  · subst h0
+    rw [Nat.zero_mul, Nat.zero_mul] at hs
+    have hnum : num = 0 := by
+      rcases Nat.mul_eq_zero.1 hs with h | h
+      · exact h
+      · exact absurd h (Nat.ne_of_gt (Nat.two_pow_pos _))
+    have hp : 0 < 2 ^ f.mb := Nat.two_pow_pos _
+    have hm0 : m = 0 := by
+      rcases h4 with h | h
+      · rw [h] at h3; simpa using h3
+      · omega
+    subst hnum; subst hm0
+    rw [Fmt.round_zero, Fmt.value_zero, Fmt.value_zero, Nat.zero_mul, Nat.zero_mul]
+    exact ⟨g.inf_pos hge, rfl⟩
+  · -- normalise the significand
+    have hL1 : 2 ^ sig.log2 ≤ sig := Nat.log2_self_le h0
+    have hL2 : sig < 2 ^ (sig.log2 + 1) := Nat.lt_log2_self
+    have hL3 : sig.log2 ≤ f.mb := by
+      have := (Nat.log2_lt h0).2 h2; omega
+    generalize sig.log2 = L at *
+    obtain ⟨a, ha⟩ : ∃ a, g.mb = L + a := ⟨g.mb - L, by omega⟩
+    obtain ⟨c, hc⟩ : ∃ c, g.bias - 1 + g.mb = (f.bias - 1 + f.mb) + c :=
+      ⟨(g.bias - 1 + g.mb) - (f.bias - 1 + f.mb), by omega⟩
+    obtain ⟨k, hk⟩ : ∃ k, (e - 1) + c = k + a := ⟨(e - 1) + c - a, by omega⟩
+    have hq1 : 2 ^ g.mb ≤ sig * 2 ^ a := by
+      rw [ha, Nat.pow_add]; exact Nat.mul_le_mul_right _ hL1
+    have hq2 : sig * 2 ^ a < 2 ^ (g.mb + 1) := by
+      rw [ha, show L + a + 1 = L + 1 + a by omega, Nat.pow_add]
+      exact Nat.mul_lt_mul_of_pos_right hL2 (Nat.two_pow_pos _)
+    have hq0 : 0 < sig * 2 ^ a := Nat.mul_pos (Nat.pos_of_ne_zero h0) (Nat.two_pow_pos _)
+    have hs' : num * 2 ^ (g.bias - 1 + g.mb) = sig * 2 ^ a * 2 ^ k * den := by
+      rw [hc]; exact rescale _ _ _ _ _ _ _ _ hs hk
+    have hfv' : (f.value m).1 * 2 ^ (g.bias - 1 + g.mb) = sig * 2 ^ a * 2 ^ k * (f.value m).2 := by
+      rw [hc]; exact rescale _ _ _ _ _ _ _ _ hfv hk
+    have hr := g.round_exact num den _ k hden hq0 hq2 (Or.inr hq1) hs'
+    have hgv := g.value_mk hge k _ hq2 (Or.inr hq1)
+    rw [hr]
+    refine ⟨?_, cross_cancel _ _ _ _ _ _ (Nat.two_pow_pos _) hgv hfv'⟩
+    -- range
+    have hK : e + 2 ≤ 2 ^ f.eb := by
+      have h4' : 2 ^ 2 ≤ 2 ^ f.eb := Nat.pow_le_pow_right (by decide) hfe
+      rcases h4 with h | h
+      · omega
+      · unfold Fmt.inf Fmt.expMax at hm
+        have : (e - 1 + 1) * 2 ^ f.mb < (2 ^ f.eb - 1) * 2 ^ f.mb := by
+          rw [Nat.add_mul, Nat.one_mul]; omega
+        have := Nat.lt_of_mul_lt_mul_right this
+        omega
+    have hk3 : k + 3 ≤ 2 ^ g.eb := by omega
+    unfold Fmt.inf Fmt.expMax
+    have : (k + 2) * 2 ^ g.mb ≤ (2 ^ g.eb - 1) * 2 ^ g.mb := Nat.mul_le_mul_right _ (by omega)
+    have hs2 : 2 ^ (g.mb + 1) = 2 * 2 ^ g.mb := by rw [Nat.pow_succ, Nat.mul_comm]
+    rw [Nat.add_mul] at this
+    omega
+
+theorem Fmt.inf_lt_signBit (f : Fmt) : f.inf < f.signBit := by
+  unfold Fmt.inf Fmt.expMax Fmt.signBit
+  rw [Nat.pow_add]
+  have := Nat.two_pow_pos f.eb
+  exact Nat.mul_lt_mul_of_pos_right (by omega) (Nat.two_pow_pos _)
+
+theorem Fmt.mag_sign_add (f : Fmt) (s : Bool) (m : Nat) (hm : m < f.signBit) :
+    f.mag ((if s then f.signBit else 0) + m) = m := by
+  unfold Fmt.mag
+  cases s
+  · simpa using Nat.mod_eq_of_lt hm
+  · simp only [if_true]
+    rw [Nat.add_mod_left, Nat.mod_eq_of_lt hm]
+
+theorem Fmt.neg_sign_add (f : Fmt) (s : Bool) (m : Nat) (hm : m < f.signBit) :
+    f.neg ((if s then f.signBit else 0) + m) = s := by
+  unfold Fmt.neg
+  have hp : 0 < f.signBit := Nat.two_pow_pos _
+  cases s
+  · simp [Nat.div_eq_of_lt hm]
+  · simp only [if_true]
+    rw [Nat.add_div_left _ hp, Nat.div_eq_of_lt hm]
+    rfl
+
+theorem Fmt.sign_add_mag (f : Fmt) (b : Nat) (hb : b < 2 ^ f.bits) :
+    (if f.neg b then f.signBit else 0) + f.mag b = b := by
+  unfold Fmt.neg Fmt.mag
+  have hp : 0 < f.signBit := Nat.two_pow_pos _
+  have hb' : b < 2 * f.signBit := by
+    unfold Fmt.bits at hb
+    unfold Fmt.signBit
+    rw [show 1 + f.eb + f.mb = (f.eb + f.mb) + 1 by omega, Nat.pow_succ] at hb
+    omega
+  have hd : b / f.signBit < 2 := (Nat.div_lt_iff_lt_mul hp).2 hb'
+  have hdm := Nat.div_add_mod b f.signBit
+  generalize b / f.signBit = d at *
+  have : d = 0 ∨ d = 1 := by omega
+  rcases this with rfl | rfl
+  · simp at hdm ⊢; exact hdm
+  · simp at hdm ⊢; exact hdm
+
+theorem convert_eq (src dst : Fmt) (m : Nat) :
+    convert src dst m = min (dst.round (src.value m).1 (src.value m).2) dst.inf := rfl
+
+/-- sign and magnitude of a converted pattern whose magnitude stays finite -/
+theorem convertBits_neg (f g : Fmt) (b : Nat) (h : convert f g (f.mag b) < g.inf) :
+    g.neg (convertBits f g b) = f.neg b :=
+  g.neg_sign_add _ _ (Nat.lt_trans h g.inf_lt_signBit)
+
+theorem convertBits_mag (f g : Fmt) (b : Nat) (h : convert f g (f.mag b) < g.inf) :
+    g.mag (convertBits f g b) = convert f g (f.mag b) :=
+  g.mag_sign_add _ _ (Nat.lt_trans h g.inf_lt_signBit)
+
+theorem convertBits_finite (f g : Fmt) (b : Nat) (h : convert f g (f.mag b) < g.inf) :
+    convertBits f g b < 2 ^ g.bits ∧ g.isFinite (convertBits f g b) = true := by
+  constructor
+  · have h2 : convert f g (f.mag b) < g.signBit := Nat.lt_trans h g.inf_lt_signBit
+    have hbits : 2 ^ g.bits = 2 * g.signBit := by
+      unfold Fmt.bits Fmt.signBit
+      rw [show 1 + g.eb + g.mb = (g.eb + g.mb) + 1 by omega, Nat.pow_succ, Nat.mul_comm]
+    unfold convertBits
+    rw [hbits]
+    split <;> omega
+  · unfold Fmt.isFinite
+    rw [convertBits_mag f g b h]
+    simpa using h
+
+/-- widening conversion of a finite magnitude is exact -/
+theorem convert_widen (f g : Fmt) (hfe : 2 ≤ f.eb) (hge : 2 ≤ g.eb) (hmb : f.mb ≤ g.mb)
+    (hoff : f.bias + f.mb ≤ g.bias) (hrange : 2 ^ f.eb + g.bias ≤ 2 ^ g.eb + f.bias)
+    (m : Nat) (hm : m < f.inf) :
+    convert f g m < g.inf ∧
+    (g.value (convert f g m)).1 * (f.value m).2 = (f.value m).1 * (g.value (convert f g m)).2 := by
+  obtain ⟨h1, h2⟩ := widen_exact f g hfe hge hmb hoff hrange m hm _ _ (f.value_den_pos m) rfl
+  rw [convert_eq, Nat.min_eq_left (Nat.le_of_lt h1)]
+  exact ⟨h1, h2⟩
+
+/-- converting any finite magnitude of another format whose value equals that of `m` gives `m` back -/
+theorem convert_of_eq (g f : Fmt) (he : 2 ≤ f.eb) (m m' : Nat) (hm : m < f.inf)
+    (heq : (g.value m').1 * (f.value m).2 = (f.value m).1 * (g.value m').2) :
+    convert g f m' = m := by
+  rw [convert_eq, f.round_of_eq he m _ _ (g.value_den_pos m') heq, Nat.min_eq_left (Nat.le_of_lt hm)]
+
+theorem convert_self (f : Fmt) (he : 2 ≤ f.eb) (m : Nat) (hm : m < f.inf) : convert f f m = m :=
+  convert_of_eq f f he m m hm rfl
+
+theorem convert_widen_narrow (f g : Fmt) (hfe : 2 ≤ f.eb) (hge : 2 ≤ g.eb) (hmb : f.mb ≤ g.mb)
+    (hoff : f.bias + f.mb ≤ g.bias) (hrange : 2 ^ f.eb + g.bias ≤ 2 ^ g.eb + f.bias)
+    (m : Nat) (hm : m < f.inf) :
+    convert g f (convert f g m) = m :=
+  convert_of_eq g f hfe m _ hm (convert_widen f g hfe hge hmb hoff hrange m hm).2
+
+theorem convertBits_self (f : Fmt) (he : 2 ≤ f.eb) (b : Nat) (hb : b < 2 ^ f.bits)
+    (hfin : f.isFinite b = true) : convertBits f f b = b := by
+  have hm : f.mag b < f.inf := by simpa [Fmt.isFinite] using hfin
+  unfold convertBits
+  rw [convert_self f he _ hm, f.sign_add_mag b hb]
+
+theorem convertBits_widen_narrow (f g : Fmt) (hfe : 2 ≤ f.eb) (hge : 2 ≤ g.eb) (hmb : f.mb ≤ g.mb)
+    (hoff : f.bias + f.mb ≤ g.bias) (hrange : 2 ^ f.eb + g.bias ≤ 2 ^ g.eb + f.bias)
+    (b : Nat) (hb : b < 2 ^ f.bits) (hfin : f.isFinite b = true) :
+    convertBits g f (convertBits f g b) = b := by
+  have hm : f.mag b < f.inf := by simpa [Fmt.isFinite] using hfin
+  have hw := (convert_widen f g hfe hge hmb hoff hrange _ hm).1
+  show (if g.neg (convertBits f g b) then f.signBit else 0) + convert g f (g.mag (convertBits f g b)) = b
+  rw [convertBits_neg f g b hw, convertBits_mag f g b hw,
+    convert_widen_narrow f g hfe hge hmb hoff hrange _ hm, f.sign_add_mag b hb]
+
+/-- widening `f → g`, then narrowing `g → h → f` through an intermediate format `h` wider than `f` -/
+theorem convertBits_widen_narrow_via (f h g : Fmt) (hfe : 2 ≤ f.eb) (hhe : 2 ≤ h.eb) (hge : 2 ≤ g.eb)
+    (hmb : f.mb ≤ g.mb) (hoff : f.bias + f.mb ≤ g.bias) (hrange : 2 ^ f.eb + g.bias ≤ 2 ^ g.eb + f.bias)
+    (hmb' : f.mb ≤ h.mb) (hoff' : f.bias + f.mb ≤ h.bias) (hrange' : 2 ^ f.eb + h.bias ≤ 2 ^ h.eb + f.bias)
+    (b : Nat) (hb : b < 2 ^ f.bits) (hfin : f.isFinite b = true) :
+    convertBits h f (convertBits g h (convertBits f g b)) = b := by
+  have hm : f.mag b < f.inf := by simpa [Fmt.isFinite] using hfin
+  obtain ⟨hw, hv⟩ := convert_widen f g hfe hge hmb hoff hrange _ hm
+  -- the middle step is again an exact rounding of the same value
+  obtain ⟨hw2, hv2⟩ := widen_exact f h hfe hhe hmb' hoff' hrange' _ hm _ _
+    (g.value_den_pos (convert f g (f.mag b))) hv
+  have hc2 : convert g h (convert f g (f.mag b)) =
+      h.round (g.value (convert f g (f.mag b))).1 (g.value (convert f g (f.mag b))).2 := by
+    rw [convert_eq, Nat.min_eq_left (Nat.le_of_lt hw2)]
+  rw [← hc2] at hw2 hv2
+  have hw2' : convert g h (g.mag (convertBits f g b)) < h.inf := by
+    rw [convertBits_mag f g b hw]; exact hw2
+  show (if h.neg (convertBits g h (convertBits f g b)) then f.signBit else 0)
+      + convert h f (h.mag (convertBits g h (convertBits f g b))) = b
+  rw [convertBits_neg g h _ hw2', convertBits_mag g h _ hw2', convertBits_neg f g b hw,
+    convertBits_mag f g b hw, convert_of_eq h f hfe _ _ hm hv2, f.sign_add_mag b hb]
+
+end Zarrs.Float
+
+namespace Zarrs.FillMeta
+open Zarrs.Float
+
+theorem narrow_widen (how : Narrow) (f : Fmt) (hf : f = f16 ∨ f = bf16 ∨ f = f32 ∨ f = f64) (b : Nat)
+    (hb : b < 2 ^ f.bits) (hfin : f.isFinite b = true) :
+    narrow how f (convertBits f f64 b) = b := by
+  rcases hf with rfl | rfl | rfl | rfl
+  · cases how
+    · have : narrow .direct f16 (convertBits f16 f64 b) = convertBits f64 f16 (convertBits f16 f64 b) := rfl
+      rw [this]
+      exact convertBits_widen_narrow f16 f64 (by decide) (by decide) (by decide) (by decide) (by decide) b hb hfin
+    · have : narrow .viaF32 f16 (convertBits f16 f64 b) =
+          convertBits f32 f16 (convertBits f64 f32 (convertBits f16 f64 b)) := rfl
+      rw [this]
+      exact convertBits_widen_narrow_via f16 f32 f64 (by decide) (by decide) (by decide) (by decide)
+        (by decide) (by decide) (by decide) (by decide) (by decide) b hb hfin
+  · have : narrow how bf16 (convertBits bf16 f64 b) = convertBits f64 bf16 (convertBits bf16 f64 b) := by
+      cases how <;> rfl
+    rw [this]
+    exact convertBits_widen_narrow bf16 f64 (by decide) (by decide) (by decide) (by decide) (by decide) b hb hfin
+  · have : narrow how f32 (convertBits f32 f64 b) = convertBits f64 f32 (convertBits f32 f64 b) := by
+      cases how <;> rfl
+    rw [this]
+    exact convertBits_widen_narrow f32 f64 (by decide) (by decide) (by decide) (by decide) (by decide) b hb hfin
+  · have : narrow how f64 (convertBits f64 f64 b) = convertBits f64 f64 b := rfl
+    rw [this]
+    exact convertBits_self f64 (by decide) b hb hfin
+
+theorem widen_finite (f : Fmt) (hf : f = f16 ∨ f = bf16 ∨ f = f32 ∨ f = f64) (b : Nat)
+    (hb : b < 2 ^ f.bits) (hfin : f.isFinite b = true) :
+    convertBits f f64 b < 2 ^ 64 ∧ f64.isFinite (convertBits f f64 b) = true := by
+  have hm : f.mag b < f.inf := by simpa [Fmt.isFinite] using hfin
+  have h64 : f64.bits = 64 := by decide
+  rw [← h64]
+  apply convertBits_finite
+  rcases hf with rfl | rfl | rfl | rfl
+  · exact (convert_widen f16 f64 (by decide) (by decide) (by decide) (by decide) (by decide) _ hm).1
+  · exact (convert_widen bf16 f64 (by decide) (by decide) (by decide) (by decide) (by decide) _ hm).1
+  · exact (convert_widen f32 f64 (by decide) (by decide) (by decide) (by decide) (by decide) _ hm).1
+  · rw [convert_self f64 (by decide) _ hm]; exact hm
+
+end Zarrs.FillMeta
